@@ -1,0 +1,7 @@
+//go:build !verif
+
+package s3db
+
+import "github.com/jrhy/s3db/kv"
+
+func verifS3Client(_ S3Options, c kv.S3Interface) kv.S3Interface { return c }
